@@ -182,7 +182,7 @@ local macro "hy_eval" "[" ts:Lean.Parser.Tactic.simpLemma,* "]" : tactic => `(ta
   simp [$ts,*, stripTrims, stripNode, stripBranches, stripCases, stripClauses, renderRoot, renderList, renderNode, renderBranches,
     renderBlockBody, evalCond, wrapFailAt, wrapAt, M.mapFail, M.bind, M.pure, writeM, trimLeftM, trimRightM, flushM, captureM,
     Prog.bind, Prog.mapFail, Prog.runPure, Prog.calls, bind, pure, hyCtx, hyPrims, M.setVar, M.getEnv, M.ofRes, evaluate, eval,
-    Env.set, Env.get, GoVal.toLiquid, GoVal.unwrap, GoVal.isNil, GoVal.test, hyOut, writeAllM, Status.wrap])
+    Env.set, Env.get, GoVal.toLiquid, GoVal.unwrap, GoVal.isNil, GoVal.test, hyOut, writeAllM, writeVerbatimM, Status.wrap])
 
 /-- `{% capture x %}␠{{- … }}{% endcapture %}{% if x == " " %}yes{% endif %}` (the object after the
     hyphen prints nothing and is left out) -/
@@ -339,7 +339,7 @@ local macro "hy_eval_loop" "[" ts:Lean.Parser.Tactic.simpLemma,* "]" : tactic =>
   simp [$ts,*, renderRoot, renderList, renderNode, renderBranches,
     renderBlockBody, evalCond, wrapFailAt, wrapAt, M.mapFail, M.bind, M.pure, M.fail, writeM, trimLeftM, trimRightM, flushM, captureM,
     Prog.bind, Prog.mapFail, Prog.runPure, Prog.calls, bind, pure, hyCtx, hyPrims, M.setVar, M.getEnv, M.getVar, M.ofRes, evaluate,
-    eval, Env.set, Env.get, GoVal.toLiquid, GoVal.unwrap, GoVal.isNil, GoVal.test, hyOut, writeAllM, Status.wrap,
+    eval, Env.set, Env.get, GoVal.toLiquid, GoVal.unwrap, GoVal.isNil, GoVal.test, hyOut, writeAllM, writeVerbatimM, Status.wrap,
     loopRun, loopDispatch, loopIterate, iterateM, tablerowCols, intModifier, loopItems, selectItems, restoreLoopVars, cyclesOf,
     forloopRec])
 
